@@ -99,7 +99,7 @@ func (i *interpreter) term(v value) *smt.Term {
 	b := i.path.B
 	switch v := v.(type) {
 	case *Sym:
-		return v.T
+		return b.Resolve(v.T)
 	case bool:
 		return b.BoolC(v)
 	case float64:
